@@ -157,3 +157,11 @@ V('c18-n-default-separator', 'C18', 'hl7apy/core.py',
   "            if text.split(get_default_encoding_chars()['FIELD'], 1)[0] != child_name:\n                reference = None", rule='C18-N')
 V('c03-z-first-digits', 'C03', 'hl7apy/core.py', "            field_index = int(obj.name[4:])", "            field_index = int(obj.name[2:3] or 0)",
   rule='C03-Z')
+V('c11-l10-early-return-after-replace', 'C11', 'hl7apy/core.py',
+  "        else:\n            self.replace_child(child_to_remove, child)\n\n        # a set has been called",
+  "        else:\n            self.replace_child(child_to_remove, child)\n            return\n\n        # a set has been called", rule='C11-L10')
+V('twin-c11-l10-on-refactored-set', 'C11', None, None, None, expect='clean', patch='benign/U1-04/patch.diff', edits=[])
+V('c11-l10-on-refactored-set', 'C11', None, None, None, rule='C11-L10', patch='benign/U1-04/patch.diff', edits=[
+  ('hl7apy/core.py', "        self.element.set_parent_to_traversal()\n", "        pass\n")])
+V('c02-m-second-header-segment', 'C02', 'hl7apy/parser.py', "    text = text[4:] if segment_name != 'MSH' else text[3:]",
+  "    text = text[4:] if segment_name not in ('MSH', 'BHS', 'FHS') else text[3:]", rule='C02-M')
